@@ -59,6 +59,20 @@ StrNeeds(mn) == IF mn \in {"movsb", "movsd", "cmpsb", "cmpsd"} THEN {"esi", "edi
                 ELSE IF mn \in {"lodsb", "lodsd"} THEN {"esi"} ELSE {"edi"}
 StrPtr(mn) == IF mn \in {"lodsb", "lodsd"} THEN Kill("eax") ELSE ptr
 RepKinds(mn) == IF mn \in {"cmpsb", "cmpsd", "scasb", "scasd"} THEN {"repe", "repne"} ELSE {"rep"}
+\* repe/repne on CONCRETE data, so that the zf termination test is decided: the operands are set up first
+\* 0x12345678 / 0x12005678: equal low bytes, then a difference
+CmpPairs == {<<0, 0>>, <<0, 1>>, <<305419896, 305419896>>, <<305419896, 302012024>>, <<302012024, 305419896>>, <<1, 0>>}
+ConcreteCmps ==
+   {[seq |-> <<Ins("mov", R("esi", 32), I(4096)), Ins("mov", R("edi", 32), I(4100)),
+               Ins("mov", M("abs", 0, 32), I(v[1])), Ins("mov", M("abs", 4, 32), I(v[2])),
+               Ins("mov", R("ecx", 32), I(n)), Ins(rk \o " " \o mn, None, None)>>,
+     ptr |-> (ptr \cup {"esi", "edi"}) \ {"ecx"}, dfk |-> dfk, ecxn |-> -1]
+      : rk \in {"repe", "repne"}, mn \in {"cmpsb", "cmpsd"}, v \in CmpPairs, n \in {2, 3}}
+ConcreteScas ==
+   {[seq |-> <<Ins("mov", R("eax", 32), I(v[1])), Ins("mov", R("edi", 32), I(4096)), Ins("mov", M("abs", 0, 32), I(v[2])),
+               Ins("mov", R("ecx", 32), I(n)), Ins(rk \o " " \o mn, None, None)>>,
+     ptr |-> ((ptr \cup {"edi"}) \ {"ecx", "eax"}), dfk |-> dfk, ecxn |-> -1]
+      : rk \in {"repe", "repne"}, mn \in {"scasb", "scasd"}, v \in CmpPairs, n \in {2, 3}}
 Complete(f, m) ==
    CASE f = "mov_mr" -> {Eff(Ins("mov", m, SubReg(r, m.w)), ptr, dfk, ecxn) : r \in Data32}
      [] f = "mov_rm" -> {Eff(Ins("mov", SubReg(r, m.w), m), Kill(r), dfk, EcxAfter(r)) : r \in Data32}
@@ -89,10 +103,11 @@ Complete(f, m) ==
      [] f = "str" -> {Eff(Ins(mn, None, None), StrPtr(mn), dfk, ecxn) : mn \in {s \in StrOps : dfk /\ StrNeeds(s) \subseteq ptr}}
      [] f = "rep_setup" -> {Eff(Ins("mov", R("ecx", 32), I(n)), Kill("ecx"), dfk, n) : n \in 0..4}
      [] f = "rep" ->       \* rep with the count known; otherwise the pair  mov ecx, n ; rep ...
-          UNION {{IF ecxn >= 0 THEN Eff(Ins(rk \o " " \o mn, None, None), StrPtr(mn) \ {"ecx"}, dfk, -1)
-                  ELSE Eff2(Ins("mov", R("ecx", 32), I(n)), Ins(rk \o " " \o mn, None, None), StrPtr(mn) \ {"ecx"}, dfk, -1)
-                    : rk \in RepKinds(mn), n \in (IF ecxn >= 0 THEN {0} ELSE 0..4)}
-                 : mn \in {s \in StrOps : dfk /\ StrNeeds(s) \subseteq ptr}}
+          (UNION {{IF ecxn >= 0 THEN Eff(Ins(rk \o " " \o mn, None, None), StrPtr(mn) \ {"ecx"}, dfk, -1)
+                   ELSE Eff2(Ins("mov", R("ecx", 32), I(n)), Ins(rk \o " " \o mn, None, None), StrPtr(mn) \ {"ecx"}, dfk, -1)
+                     : rk \in RepKinds(mn), n \in (IF ecxn >= 0 THEN {0} ELSE 0..4)}
+                  : mn \in {s \in StrOps : dfk /\ StrNeeds(s) \subseteq ptr}})
+          \cup (IF dfk THEN ConcreteCmps \cup ConcreteScas ELSE {})
 
 \* two of three programs start by fixing the direction flag (string instructions need it concrete)
 Init == /\ ptr = All32 /\ ecxn = -1 /\ stage = 0 /\ form = "" /\ mop = None
@@ -120,7 +135,7 @@ Spec == Init /\ [][Next]_vars
 
 \* obligations of the generator: every memory operand is based on a tracked pointer or absolute,
 \* the program never exceeds the bound
-GenOK == /\ Len(prog) <= MaxLen + 1
+GenOK == /\ Len(prog) <= MaxLen + 5
          /\ ptr \subseteq All32 /\ ecxn \in (-1)..4
          /\ (stage = 2 /\ form \in MemForms => mop.k = "m" /\ (mop.n = "abs" \/ mop.n \in ptr))
 =============================================================================
